@@ -1,7 +1,102 @@
 (* PropC02.v — C02: a crash at any instant recovers to an atomic, consistent prefix (stream level: WAL = zero-prefilled stream, crash = any byte prefix of the entry in flight; every block size and checksum function). crc_collision P = a frame and its own zero-completed prefix have the same checksum.
    Statements only; each theorem is closed by `exact <lemma>`; proofs live in the imported files. *)
 From Coq Require Import Lia NArith List.
-From MRL Require Import Bytes Params Names Frame Record Mem Rolling Log Driver Hist StreamProofs TornProofs GhostLog RestartInv OpenReplay TornFile CrashTrace.
+From MRL Require Import Bytes Params Names Frame Record Mem Spec Rolling Log Driver Hist SpecRefine StreamProofs TornProofs GhostLog RestartInv RestartFinal OpenReplay TornFile CrashTrace NzcVacuous CrashAtomic.
+
+(* THE PROPERTY, end to end: from any state satisfying the global invariant, under a flush-per-operation policy, for EVERY crash image of a call (cut between any two file-system effects - file creation, set_len, flush, sync, unlink - or after any number of bytes of any write): open succeeds and the recovered abstract state is that of all completed calls, or that plus the in-flight call (the model never shows a partially applied truncate/delete) *)
+Theorem C02_crash_atomic :
+    forall P : params,
+    7 < BS P ->
+    BS P <= 65542 ->
+    1 <= NB P ->
+    (forall (t : byte) (p : bytes), crcf P t p < 2 ^ 32) ->
+    L_GC P = false ->
+    L_IO P = false ->
+    L_SHORT P = false ->
+    no_zero_collision P ->
+    forall (st : state) (G : ghost) (a : bool) (o : op) (tick : bool) (st' : state) (out : outcome),
+    Inv P st G ->
+    w_pending (s_wr st) = [] ->
+    s_pol st = PAlways a ->
+    op_wf_strict (s_qs st) o ->
+    RestartWrite.stream_bound P G (map snd (step_log P st o)) ->
+    crash_bound P G (map snd (step_log P st o)) (abs_qs (s_qs st)) ->
+    crash_bound P G (map snd (step_log P st o)) (abs_qs (s_qs st')) ->
+    step P st o tick = (st', out) ->
+    (forall e : ioerr, out <> OutIo e) ->
+    exists evs : list event,
+    c_ev (w_ctx (s_wr st')) = rev evs ++ c_ev (w_ctx (s_wr st)) /\
+    (forall (cut k : N) (pol : policy) (hint : list bytes),
+    let img := fold_left apply_event (crash_events evs cut k) (c_fs (w_ctx (s_wr st))) in
+    exists st_r : state,
+    open P img None pol hint = OpenOk st_r /\
+    ((forall q : bytes, s_get (abs_qs (s_qs st_r)) q = s_get (abs_qs (s_qs st)) q) \/
+    (forall q : bytes, s_get (abs_qs (s_qs st_r)) q = s_get (abs_qs (s_qs st')) q))).
+Proof. exact C02_crash_atomic. Qed.
+Print Assumptions C02_crash_atomic.
+
+(* from a fresh directory: after any hist_ok history with restarts under Always policies, a crash during the next call recovers to the specification state before or after that call *)
+Theorem C02_history :
+    forall P : params,
+    7 < BS P ->
+    BS P <= 65542 ->
+    1 <= NB P ->
+    (forall (t : byte) (p : bytes), crcf P t p < 2 ^ 32) ->
+    L_GC P = false ->
+    L_IO P = false ->
+    L_SHORT P = false ->
+    no_zero_collision P ->
+    forall (a : bool) (st0 : state) (h : list hop) (st : state) (outs : list outcome)
+    (o : op) (tick : bool) (st' : state) (out : outcome),
+    open P [] None (PAlways a) [] = OpenOk st0 ->
+    hrun P st0 h = Some (st, outs) ->
+    hist_ok P st0 h ->
+    always_hist a h ->
+    op_wf_strict (s_qs st) o ->
+    crash_phys_bound P (s_wr st) (map snd (step_log P st o)) (abs_qs (s_qs st)) ->
+    crash_phys_bound P (s_wr st) (map snd (step_log P st o)) (abs_qs (s_qs st')) ->
+    step P st o tick = (st', out) ->
+    exists (m_before : smap) (souts : list sout) (m_after : smap) (so : sout)
+    (evs : list event),
+    s_run [] (map sop_of (hcalls h)) = (m_before, souts) /\
+    s_step m_before (sop_of o) = (m_after, so) /\
+    out_logical out = Some so /\
+    c_ev (w_ctx (s_wr st')) = rev evs ++ c_ev (w_ctx (s_wr st)) /\
+    (forall (cut k : N) (pol : policy) (hint : list bytes),
+    let img := fold_left apply_event (crash_events evs cut k) (c_fs (w_ctx (s_wr st))) in
+    exists st_r : state,
+    open P img None pol hint = OpenOk st_r /\
+    ((forall q : bytes, s_get (abs_qs (s_qs st_r)) q = s_get m_before q) \/
+    (forall q : bytes, s_get (abs_qs (s_qs st_r)) q = s_get m_after q))).
+Proof. exact C02_history. Qed.
+Print Assumptions C02_history.
+
+(* entry level: replaying the kept entries plus any prefix of the entries a call logs gives the state before the call (empty prefix) or after it (non-empty prefix): GC position entries are abstract no-ops *)
+Theorem C02_call_entries_atomic :
+    forall P : params,
+    7 < BS P ->
+    BS P <= 65542 ->
+    1 <= NB P ->
+    (forall (t : byte) (p : bytes), crcf P t p < 2 ^ 32) ->
+    L_GC P = false ->
+    forall (st : state) (G : ghost) (o : op) (tick : bool) (st' : state) (out : outcome),
+    Inv P st G ->
+    op_wf_strict (s_qs st) o ->
+    RestartWrite.stream_bound P G (map snd (step_log P st o)) ->
+    step P st o tick = (st', out) ->
+    (forall e : ioerr, out <> OutIo e) ->
+    forall Xd Xr : list entry,
+    map snd (step_log P st o) = Xd ++ Xr ->
+    forall tags : list N,
+    length tags = (length (gh_E G) + length Xd)%nat ->
+    exists qs' : queues,
+    replay_entries [] (combine tags (map snd (gh_E G) ++ Xd)) = Some qs' /\
+    qs_inv qs' /\
+    nodup_names qs' /\
+    (Xd = [] -> forall q : bytes, s_get (abs_qs qs') q = s_get (abs_qs (s_qs st)) q) /\
+    (Xd <> [] -> forall q : bytes, s_get (abs_qs qs') q = s_get (abs_qs (s_qs st')) q).
+Proof. exact call_entries_atomic. Qed.
+Print Assumptions C02_call_entries_atomic.
 
 (* all earlier entries are delivered, then nothing, or one Corruption, or the in-flight entry itself - the latter only if the missing bytes are all zero (the disk equals the fully written entry), or another entry only under a CRC collision *)
 Theorem C02_torn_read :
